@@ -483,6 +483,9 @@ def ctor_case(ctx, rnd, i, made=None):
     if not isinstance(d, ast.Dict):
         ctx.violation("constructor-not-lowered-to-dict", f"{text}: lowered to {astx.unparse(low)[:200]}", witness)
         return
+    if len(d.keys) != len(d.values):
+        ctx.violation("constructor-dict-malformed", f"{text}: lowered to a dictionary of {len(d.keys)} keys and {len(d.values)} values (keys {[getattr(k, 'value', '?') for k in d.keys]})", witness)
+        return
     got_keys = [k.value if isinstance(k, ast.Constant) else "<non-constant>" for k in d.keys]
     exp_keys = list(bound.arguments.keys())
     if kind == "dataclass-initvar":
